@@ -177,14 +177,18 @@ def _replay_with_loads(shape, hist, root, store_kind, mode, options, eval_kwargs
             rec = hist[st["h"]]
             paths = sorted(p for (p, _) in rec.get("served", []))
             if paths:
+                sc = store_conf(store_kind, root) or {}
+                ddir = sc.get("data_dir") if sc.get("kind") == "local" else (
+                    os.path.join(sc["fake_root"], "data") if sc.get("kind") == "dbfs" else None)
                 lseg = {"root_dir": root, "mode": mode, "modules": [], "vlog": False,
                         "store": store_conf(store_kind, root), "record": False,
-                        "steps": [{"op": "load", "paths": paths, "h": st["h"]}]}
+                        "steps": [{"op": "load", "paths": paths, "h": st["h"], "data_dir": ddir}]}
                 res = run_forked(lseg)
                 if res.get("fatal"):
                     obs.setdefault(st["h"], {})["loads_fatal"] = res["fatal"]
                 else:
                     obs.setdefault(st["h"], {})["loads"] = res["steps"][0]["loads"]
+                    obs.setdefault(st["h"], {})["files"] = res["steps"][0].get("files")
     return obs
 
 
